@@ -38,7 +38,7 @@ SPEC = {
   'exes': ['drv_c03'],
   'rule': (
     'One case = one rooted object graph + one plan (filters, merge order, state filters, update state, pop filters). '
-    'Random stream: 1-12 graph nodes (4 classes), 0-6 Variables (6 classes, metadata incl. tag), attributes drawn from '
+    'Random stream: 1-12 graph nodes (4 classes), 0-6 Variables (7 classes incl. a subclass with an on_get_value hook; metadata incl. tag and on_get_value / on_set_value hooks), attributes drawn from '
     '{node ref (back edges and self loops allowed), Variable ref (shared), static, array, None, nested list/tuple/dict}; '
     'roots are nodes, containers or bare Variables. Exhaustive stream: every assignment of 2 attribute slots of <=2 nodes '
     'to {absent, node0, node1, var0, var1, static}. A case is non-trivial when the graph has a shared object, a cycle, '
@@ -53,7 +53,8 @@ SPEC = {
     'nested State <-> flat path map conversions are the identity on prefix-free path maps (property C16)',
     'pytree containers are values: a list/dict object shared by two graph nodes is duplicated by split/merge (finding F8, known, key shared-pytree-container)',
     'array leaves and Variable values are opaque immutable payloads (interned to integers); nnx.clone shares NumPy buffers by reference (observation)',
-    'sibling keys are homogeneous (all int or all str), as sorted() requires; Variable hooks (on_get_value ...) are absent from metadata',
+    'sibling keys are homogeneous (all int or all str), as sorted() requires',
+    'Variable hooks (on_get_value / on_set_value, via metadata kwarg or a Variable subclass) are opaque metadata entries for the model: flatten / unflatten / update_from_state copy raw payloads and never run a hook; the harness observes raw_value, .value (after hooks) and metadata (hooks by qualified name). on_create_value runs only in Variable.__init__ and is not generated',
     'update with a key the node does not have, or a nested State written into an array/Variable slot, is outside the model (never generated)',
     'iter_graph is compared on graph nodes, Variables, arrays and statics; Python also de-duplicates None/() singletons and containers by id()',
   ],
@@ -80,7 +81,30 @@ class MyParam(nnx.Param):
   pass
 
 
+def hook_double(var, x):
+  return x * 2
+
+
+def hook_plus1(var, x):
+  return x + 1
+
+
+def hook_set_neg(var, x):
+  return -x
+
+
+class HookedParam(nnx.Param):
+  """a Variable subclass that defines a get-hook: Variable.__init__ records it in the metadata"""
+
+  def on_get_value(self, value):
+    return value * 3
+
+
+HOOKS = {f.__qualname__: f for f in (hook_double, hook_plus1, hook_set_neg, HookedParam.on_get_value)}
+HOOKED_MD = ['on_get_value', 'h:' + HookedParam.on_get_value.__qualname__]
+
 VTYPES = {
+  'HookedParam': HookedParam,
   'Param': nnx.Param,
   'BatchStat': nnx.BatchStat,
   'Cache': nnx.Cache,
@@ -148,6 +172,8 @@ def static_repr(v) -> str:
     return 's:' + v
   if isinstance(v, float):
     return 'f:' + repr(v)
+  if callable(v) and getattr(v, '__qualname__', None) in HOOKS:
+    return 'h:' + v.__qualname__  # hooks are compared by name, never by id
   return 'o:' + type(v).__name__
 
 
@@ -161,6 +187,8 @@ def static_value(s: str):
     return body
   if t == 'f:':
     return float(body)
+  if t == 'h:':
+    return HOOKS[body]
   raise ValueError(s)
 
 
@@ -214,6 +242,7 @@ class Observer:
     self.addr = {}
     self.keep = []
     self.containers = {}  # id -> count of list/dict objects seen during the last snapshot
+    self.hv = {}  # address -> payload id of Variable.value (the value AFTER on_get_value hooks), last snapshot
     for o in objs:
       self.add(o)
 
@@ -256,8 +285,15 @@ class Observer:
     rootv = self.val(root)
     heap = []
     i = 0
+    self.hv = {}
     while i < len(self.keep):
-      heap.append(self.obj(self.keep[i]))
+      o = self.keep[i]
+      heap.append(self.obj(o))
+      if isinstance(o, nnx.Variable):
+        try:
+          self.hv[i] = data_id(o.value)
+        except Exception as e:  # a hook that cannot be applied is an observation too
+          self.hv[i] = 'err:' + type(e).__name__
       i += 1
     return {'heap': heap, 'root': rootv}
 
@@ -311,7 +347,7 @@ def children(G, v):
   return None
 
 
-def canon(G):
+def canon(G, hv=None):
   """Independent canonical form of the rooted graph: DFS in sorted key order, objects labelled by first
   visit, later visits are back references; attribute/dict insertion order and addresses are forgotten."""
   heap = G['heap']
@@ -337,7 +373,7 @@ def canon(G):
     o = heap[a]
     if 'cls' in o:
       return ['node', n, o['cls'], [[k, cv(x)] for k, x in sorted_items(o['attrs'])]]
-    return ['var', n, o['vt'], o['val'], sorted(o['md'])]
+    return ['var', n, o['vt'], o['val'], sorted(o['md'])] + ([hv.get(a)] if hv is not None else [])
 
   return cv(G['root'])
 
@@ -418,6 +454,18 @@ def ref_state(G):
 
   go((), G['root'])
   return out
+
+
+def array_in_container(G):
+  """does nnx.state(g) list an array leaf that lives inside a list/tuple/dict (update cannot write those)?"""
+  for p, leaf in ref_state(G):
+    if 'arr' in leaf and p:
+      v = G['root']
+      for k in p[:-1]:
+        v = dict((json.dumps(kk), c) for kk, c in children(G, v))[json.dumps(k)]
+      if v is None or 'r' not in v:
+        return True
+  return False
 
 
 def graph_features(G):
@@ -667,7 +715,7 @@ def leaf_python(leaf):
 
 ATTR_NAMES = ['a', 'b', 'ab', 'a_b', 'z', 'B', 'x1', 'x10', 'x2', 'k', 'w', 'kernel', 'bias', '_p', 'Z']
 STATICS = ['i:0', 'i:3', 'i:-1', 's:relu', 's:', 'b:True', 'b:False', 'f:0.5']
-METAS = [[], [], [], [['tag', 's:x']], [['tag', 's:y']], [['n', 'i:3']], [['tag', 's:x'], ['n', 'i:1']], [['tag', 'i:7']]]
+METAS = [[], [], [], [['on_get_value', 'h:hook_double']], [['on_get_value', 'h:hook_plus1'], ['tag', 's:x']], [['on_set_value', 'h:hook_set_neg']], [['tag', 's:y'], ['on_get_value', 'h:hook_double'], ['on_set_value', 'h:hook_set_neg']], [['tag', 's:x']], [['tag', 's:y']], [['n', 'i:3']], [['tag', 's:x'], ['n', 'i:1']], [['tag', 'i:7']]]
 
 
 def gen_value(rng, n_nodes, var_addrs, depth, node_bias):
@@ -709,7 +757,10 @@ def gen_graph(rng, max_nodes=12, max_vars=6):
   for _ in range(n_vars):
     vt = rng.choice(list(VTYPES))
     var_addrs.append(len(heap))
-    heap.append({'vt': VT_MRO[vt], 'val': rng.randrange(0, 40), 'md': [list(x) for x in rng.choice(METAS)]})
+    md = [list(x) for x in rng.choice(METAS)]
+    if vt == 'HookedParam':  # Variable.__init__ puts the class hook first in the metadata
+      md = [list(HOOKED_MD)] + [x for x in md if x[0] != 'on_get_value']
+    heap.append({'vt': VT_MRO[vt], 'val': rng.randrange(0, 40), 'md': md})
   node_bias = rng.choice([0.15, 0.3, 0.45])
   for i in range(n_nodes):
     k = rng.randrange(0, 6)
@@ -800,6 +851,8 @@ def gen_plan(rng, G):
   for _ in range(rng.randrange(1, 3)):
     pf.append(random_filter(rng, paths, 1) if rng.random() < 0.25 else rng.choice([{'type': 'Intermediate'}, {'type': 'Param'}, {'type': 'Cache'}, {'tag': 'x'}, {'type': 'BatchStat'}, {'any': [{'type': 'Cache'}, {'tag': 'y'}]}, {'not': {'type': 'Param'}}, {'type': 'Variable'}]))
   plan['pop_filters'] = pf
+  hooked = any('vt' in o and any(k.startswith('on_') for k, _ in o['md']) for o in G['heap'])
+  plan['self_update'] = hooked or rng.random() < 0.15
   return plan
 
 
@@ -913,6 +966,8 @@ def run_impl(plan):
   ob = Observer(objs)
   before = ob.snapshot(root)
   res['before'] = before
+  hv0 = dict(ob.hv)
+  res['before_hv'] = hv0
   res['built_ok'] = before['heap'][:n0] == G['heap'] and before['root'] == G['root'] if not plan.get('shared') else True
   cont_before = container_ids(root)
   pf = [nf_python(f) for f in plan['filters']]
@@ -924,10 +979,11 @@ def run_impl(plan):
     m = call(nnx.merge, gd, *perm_states)
     if m[0] == 'ok':
       after = ob.snapshot(root)
-      res['untouched'] = after['heap'][:n0] == before['heap'][:n0] and after['root'] == before['root']
+      res['untouched'] = after['heap'][:n0] == before['heap'][:n0] and after['root'] == before['root'] and {a: v for a, v in ob.hv.items() if a < n0} == {a: v for a, v in hv0.items() if a < n0}
       ob2 = Observer(ob.keep)
       full = ob2.snapshot(m[1])
       res['merged'] = {'heap': full['heap'], 'root': full['root']}
+      res['merged_hv'] = dict(ob2.hv)
       res['merged_fresh'] = all(a >= len(ob.keep) for a in reachable(res['merged']))
       res['merged_containers'] = container_ids(m[1])
       # containers (list/dict objects) of the original must not be reused either
@@ -954,6 +1010,7 @@ def run_impl(plan):
     ob3 = Observer(ob.keep)
     full = ob3.snapshot(r[1])
     res['clone'] = ('ok', {'heap': full['heap'], 'root': full['root']})
+    res['clone_hv'] = dict(ob3.hv)
     res['clone_fresh'] = all(a >= len(ob.keep) for a in reachable(res['clone'][1])) and not (set(cont_before) & set(container_ids(r[1])))
     after = ob.snapshot(root)
     res['clone_untouched'] = after['heap'][:n0] == before['heap'][:n0]
@@ -983,6 +1040,18 @@ def run_impl(plan):
       res['update_no_new'] = len(ob.keep) == n_before
     else:
       res['update'] = r
+  # ---- update(g, state(g)) on a fresh build: raw values, hooked values and metadata must not move ----
+  if plan.get('self_update') and not plan.get('shared'):
+    objs3, root3 = build(G)
+    obs = Observer(objs3)
+    b3 = obs.snapshot(root3)
+    hv3 = dict(obs.hv)
+    r = call(lambda: nnx.update(root3, nnx.state(root3)))
+    if r[0] == 'ok':
+      a3 = obs.snapshot(root3)
+      res['self_update'] = ('ok', a3['heap'][:n0] == b3['heap'][:n0] and dict(obs.hv) == hv3 and len(obs.keep) == len(objs3))
+    else:
+      res['self_update'] = r
   # ---- pop (fresh build) -----------------------------------------------------------------------
   if plan.get('pop_filters') is not None and not plan.get('shared'):
     objs2, root2 = build(G)
@@ -1060,6 +1129,7 @@ def check_one(ctx, plan, mo, stream):
   ctx.count('container_values', min(feats['containers'], 8))
   ctx.count('root_kind', 'none' if G['root'] is None else next(iter(G['root'])) if 'r' not in G['root'] else ('var' if 'vt' in G['heap'][G['root']['r']] else 'node'))
   ctx.count('n_filters', len(plan['filters']))
+  ctx.count('hooked_variables', sum(1 for a in reachable(G) if 'vt' in G['heap'][a] and any(k.startswith('on_') for k, _ in G['heap'][a]['md'])))
   ctx.count('merge_args', 'permutation' if sorted(plan['perm']) == list(range(max(1, len(plan['filters'])))) else 'malformed')
   case = _small(plan)
   res = run_impl(plan)
@@ -1085,8 +1155,11 @@ def check_one(ctx, plan, mo, stream):
     merged = res['merged']
     ok_iso = canon(merged) == canon0
     ok_paths = path_table(merged) == table0
+    ok_hooked = canon(merged, res['merged_hv']) == canon(before, res['before_hv'])
     if not (ok_iso and ok_paths):
       ctx.violation('roundtrip-not-isomorphic', f'merge(split(g)) is not isomorphic to g (canonical form equal: {ok_iso}, path/alias table equal: {ok_paths})', case)
+    elif not ok_hooked:
+      ctx.violation('roundtrip-hooked-value', 'merge(split(g)): a Variable reads a different .value (after its on_get_value hook) than in g although raw value and metadata agree', case)
     elif not res['merged_fresh']:
       ctx.violation('roundtrip-shares-object', 'merge(split(g)) reuses a graph node or Variable of g', case)
     elif not res['untouched']:
@@ -1171,6 +1244,8 @@ def check_one(ctx, plan, mo, stream):
   if cl[0] == 'ok':
     if canon(cl[1]) != canon0 or path_table(cl[1]) != table0:
       ctx.violation('clone-not-isomorphic', 'nnx.clone(g) is not isomorphic to g', case)
+    elif canon(cl[1], res['clone_hv']) != canon(before, res['before_hv']):
+      ctx.violation('clone-hooked-value', 'nnx.clone(g): a Variable reads a different .value (after hooks) than in g', case)
     elif not res['clone_fresh']:
       ctx.violation('clone-shares-mutable', 'nnx.clone(g) shares a graph node, Variable or container with g', case)
     elif not res['clone_untouched']:
@@ -1202,6 +1277,17 @@ def check_one(ctx, plan, mo, stream):
     elif not same_outcome(itr, m_iter):
       ctx.disagreements_checked += 1
       ctx.violation('iter-model-mismatch', f'implementation raised {itr[1]}, model says {m_iter}', case, concrete=False)
+
+  # ---------------- update(g, state(g)) ---------------------------------------------------------
+  if 'self_update' in res:
+    su = res['self_update']
+    root_is_var = G['root'] is not None and 'r' in G['root'] and 'vt' in G['heap'][G['root']['r']]
+    root_ok = not (G['root'] is not None and ('s' in G['root'] or 'a' in G['root']))
+    ctx.count('self_update', su[0] if su[0] == 'err' else str(su[1]))
+    if su[0] == 'ok' and not su[1]:
+      ctx.violation('update-state-roundtrip', 'update(g, state(g)) changed a raw value, a hooked value or metadata of g', case)
+    elif su[0] == 'err' and root_ok and not root_is_var and not array_in_container(G):
+      ctx.violation('update-state-raises', f'update(g, state(g)) raised {su[1]}', case)
 
   # ---------------- update ---------------------------------------------------------------------
   if 'update' in res:
@@ -1484,6 +1570,7 @@ def _run_case(ctx, drv, obj, stream):
     plan.setdefault('state_filters', [])
     plan.setdefault('update', None)
     plan.setdefault('update_split', None)
+    plan.setdefault('self_update', True)
     plan.setdefault('pop_filters', None)
     check_batch(ctx, drv, [plan], stream)
   elif kind == 'merge_flat':
